@@ -109,6 +109,26 @@ def check_programs(tier, seed):
                 jobs.append((name, cls, ["mchap", name, "--bam"] + bams + ["--ploidy", "4", "--haplotypes", hap] + extra + rp))
                 jobs.append((name + "-prior", cls, ["mchap", name, "--bam"] + bams + ["--ploidy", "4", "--haplotypes", mock, "--prior-frequencies", "AFP", "--filter-input-haplotypes", "AFP>=0.1"] + extra + rp))
             jobs.append(("call-pedigree", call_pedigree.program, ["mchap", "call-pedigree", "--bam"] + bams + ["--ploidy", "4", "--haplotypes", hap, "--sample-parents", os.path.join(data, "simple.pedigree.132.txt"), "--gamete-error", "0.1", "--mcmc-steps", "200", "--mcmc-burn", "100"] + rp))
+        # input haplotypes whose prior frequency is exactly zero at the end / in the middle / at the first ALT of the allele list
+        # (--prior-frequencies AFP without a filter): alleles with zero prior stay listed, every R/A/G field keeps its cardinality
+        zero_vcf = os.path.join(tmp, "zero_prior.vcf")
+        refseq20 = "A" * 20
+        zrecs = [
+            ("CHR1", 6, "z_last3", ["AAAAAAAAAAGAAAAAATAA", "ACAAAAAAAAGAAAAAACAA"], "0.2,0.8,0"),
+            ("CHR2", 11, "z_last4", ["AAAAAAAAAGAAAAAAAAAA", "AAAAAAAAATAAAAAAAAAA", "AAAATAAAAGAAAAAAAAAA"], "0.5,0.3,0.2,0"),
+            ("CHR2", 11, "z_mid4", ["AAAAAAAAAGAAAAAAAAAA", "AAAAAAAAATAAAAAAAAAA", "AAAATAAAAGAAAAAAAAAA"], "0.5,0,0.3,0.2"),
+            ("CHR1", 6, "z_two_last", ["AAAAAAAAAAGAAAAAATAA", "ACAAAAAAAAGAAAAAACAA"], "1,0,0"),
+        ]
+        with open(zero_vcf, "w") as f:
+            f.write("##fileformat=VCFv4.3\n##contig=<ID=CHR1,length=60>\n##contig=<ID=CHR2,length=60>\n##contig=<ID=CHR3,length=60>\n")
+            f.write('##INFO=<ID=END,Number=1,Type=Integer,Description="End">\n##INFO=<ID=AFP,Number=R,Type=Float,Description="freq">\n')
+            f.write("#CHROM\tPOS\tID\tREF\tALT\tQUAL\tFILTER\tINFO\n")
+            for chrom_, pos_, name_, alts_, afp_ in zrecs:
+                f.write("\t".join([chrom_, str(pos_), name_, refseq20, ",".join(alts_), ".", ".", "END=%d;AFP=%s" % (pos_ + 19, afp_)]) + "\n")
+        full_rp = ["--report", "AFP", "ACP", "AOP", "AOPSUM", "GP", "AFPRIOR"]
+        jobs.append(("call-zero-prior", call.program, ["mchap", "call", "--bam"] + bams + ["--ploidy", "4", "--haplotypes", zero_vcf, "--prior-frequencies", "AFP", "--mcmc-steps", "200", "--mcmc-burn", "100"] + full_rp))
+        jobs.append(("call-exact-zero-prior", call_exact.program, ["mchap", "call-exact", "--bam"] + bams + ["--ploidy", "4", "--haplotypes", zero_vcf, "--prior-frequencies", "AFP"] + full_rp))
+        jobs.append(("call-pedigree-zero-prior", call_pedigree.program, ["mchap", "call-pedigree", "--bam"] + bams + ["--ploidy", "4", "--haplotypes", zero_vcf, "--prior-frequencies", "AFP", "--sample-parents", os.path.join(data, "simple.pedigree.132.txt"), "--gamete-error", "0.1", "--mcmc-steps", "200", "--mcmc-burn", "100"] + full_rp))
         fasta = pysam.FastaFile(ref)
         for name, cls, cmd in jobs:
             inp0 = {"program": name, "command": " ".join(os.path.basename(a) if "/" in a else a for a in cmd[1:])}
